@@ -1,6 +1,8 @@
 package colvet
 
 import (
+	"fmt"
+	"os"
 	"go/token"
 	"go/types"
 	"sort"
@@ -45,6 +47,48 @@ type Effect struct {
 	Inlined bool                      // found inside a helper the body calls; operands that are parameters are bound to the call's arguments
 	Inner   ssa.Instruction           // the instruction inside the helper (Ins is the call in the loop body)
 	Bind    func(ssa.Value) ssa.Value // helper parameter ↦ argument of the call (nil result: not a parameter)
+	// for effects found inside a helper: the operation types under which the inner instruction can
+	// execute / executes on every path through the helper, given the arguments of this call
+	// (Reader.Type tests and constant arguments decide the helper's branches)
+	MayOps  opset
+	MustOps opset
+	H       *helperInline   // the (outermost) inlining this effect comes from
+	hBlock  *ssa.BasicBlock // the block of H.fn in which the effect (or the nested call leading to it) sits
+}
+
+// helperInline: one inlining of a helper at a call of the loop body — the helper and, per operation
+// type, the edges of its CFG that are feasible given the arguments of the call.
+type helperInline struct {
+	fn   *ssa.Function
+	site ssa.Instruction
+	feas [opOther + 1]map[cfgEdge]bool
+}
+
+// mustPassOneOf: under op every path from the helper's entry to a return passes one of the blocks.
+func (h *helperInline) mustPassOneOf(op int, blocks map[*ssa.BasicBlock]bool) bool {
+	feas := h.feas[op]
+	avoid := false
+	seen := map[*ssa.BasicBlock]bool{}
+	var dfs func(x *ssa.BasicBlock)
+	dfs = func(x *ssa.BasicBlock) {
+		if avoid || seen[x] || blocks[x] {
+			return
+		}
+		seen[x] = true
+		if len(x.Instrs) > 0 {
+			if _, isRet := x.Instrs[len(x.Instrs)-1].(*ssa.Return); isRet {
+				avoid = true
+				return
+			}
+		}
+		for _, s := range x.Succs {
+			if feas[cfgEdge{x, s}] {
+				dfs(s)
+			}
+		}
+	}
+	dfs(h.fn.Blocks[0])
+	return !avoid
 }
 
 type ArmLoop struct {
@@ -181,7 +225,52 @@ func (a *ArmLoop) computeOps() {
 }
 
 // rowOffsetOfWord recognises the word index of a bitmap access `x>>6` / `x/64` and returns x.
+// throughTuple: a component of the result of a pure helper such as
+// `bitAt(offset) (blk, bit) { return offset >> 6, 1 << (offset & 63) }` is the expression the
+// helper returns for it; bindBack maps the helper's parameters back to the arguments of that call.
+func throughTuple(v ssa.Value) (ssa.Value, func(ssa.Value) ssa.Value) {
+	v = strip(v)
+	idx := 0
+	var call *ssa.Call
+	switch x := v.(type) {
+	case *ssa.Extract:
+		call, _ = x.Tuple.(*ssa.Call)
+		idx = x.Index
+	case *ssa.Call:
+		call = x
+	}
+	if call == nil {
+		return v, nil
+	}
+	sc := call.Call.StaticCallee()
+	if sc == nil || !isHelper(sc) {
+		return v, nil
+	}
+	o := originOf(sc)
+	rets := returnsOf(o)
+	if len(rets) != 1 || idx >= len(rets[0].Results) || len(o.Blocks) != 1 {
+		return v, nil
+	}
+	back := func(x ssa.Value) ssa.Value {
+		if p, ok := strip(x).(*ssa.Parameter); ok && p.Parent() == o {
+			for i, q := range o.Params {
+				if q == p && i < len(call.Call.Args) {
+					return strip(call.Call.Args[i])
+				}
+			}
+		}
+		return x
+	}
+	return strip(rets[0].Results[idx]), back
+}
+
 func rowOffsetOfWord(idx ssa.Value) (ssa.Value, bool) {
+	if v, back := throughTuple(idx); back != nil {
+		if x, ok := rowOffsetOfWord(v); ok {
+			return back(x), true
+		}
+		return nil, false
+	}
 	bo, ok := strip(idx).(*ssa.BinOp)
 	if !ok {
 		return nil, false
@@ -198,6 +287,12 @@ func rowOffsetOfWord(idx ssa.Value) (ssa.Value, bool) {
 
 // rowOffsetOfBit recognises the mask `1 << (x & 63)` / `1 << (x % 64)` and returns x.
 func rowOffsetOfBit(mask ssa.Value) (ssa.Value, bool) {
+	if v, back := throughTuple(mask); back != nil {
+		if x, ok := rowOffsetOfBit(v); ok {
+			return back(x), true
+		}
+		return nil, false
+	}
 	bo, ok := strip(mask).(*ssa.BinOp)
 	if !ok || bo.Op != token.SHL {
 		return nil, false
@@ -337,11 +432,23 @@ func (a *ArmLoop) computeEffects() {
 			}
 			return nil, false
 		}
+		// which blocks of the helper run under which operation type, for this call
+		mayIn, mustIn, hInfo := helperOps(fn, func(v ssa.Value) (bool, bool) {
+			if p, isPar := v.(*ssa.Parameter); isPar {
+				if x, ok := bind(p); ok {
+					if c, isC := strip(x).(*ssa.Const); isC && c.Value != nil && (c.Value.String() == "true" || c.Value.String() == "false") {
+						return c.Value.String() == "true", true
+					}
+				}
+			}
+			return false, false
+		})
 		var out []Effect
 		allInstrs(fn, func(ins ssa.Instruction) {
 			if e, ok := classify(a.P, ins, nil); ok {
 				e.Inlined = true
 				e.Inner = ins
+				e.MayOps, e.MustOps, e.H, e.hBlock = mayIn[ins.Block()], mustIn[ins.Block()], hInfo, ins.Block()
 				e.Bind = func(v ssa.Value) ssa.Value {
 					if x, ok := bind(v); ok {
 						return x
@@ -371,7 +478,17 @@ func (a *ArmLoop) computeEffects() {
 						inner[i] = nil
 					}
 				}
-				out = append(out, helper(cc.StaticCallee(), inner, depth+1, seen)...)
+				for _, ne := range helper(cc.StaticCallee(), inner, depth+1, seen) {
+					// nested helper: its effects run only where this call runs
+					ne.MayOps &= mayIn[ins.Block()]
+					ne.MustOps &= mustIn[ins.Block()]
+					if ne.H != nil && ne.H != hInfo {
+						// seen from this helper the nested effect happens at the nested call
+						ne.H, ne.hBlock = hInfo, ins.Block()
+					}
+					out = append(out, ne)
+				}
+				delete(seen, cc.StaticCallee()) // guards against recursion only: a helper called twice is read twice
 			}
 		})
 		return out
@@ -392,6 +509,55 @@ func (a *ArmLoop) computeEffects() {
 	}
 }
 
+// helperOps: for every block of helper fn the operation types under which it can execute (may) and
+// under which every path from the helper's entry to a return passes through it (must). Branches
+// are decided by the tests of Reader.Type and by extra (constant arguments of the call).
+func helperOps(fn *ssa.Function, extra func(ssa.Value) (bool, bool)) (may, must map[*ssa.BasicBlock]opset, hi *helperInline) {
+	may, must = map[*ssa.BasicBlock]opset{}, map[*ssa.BasicBlock]opset{}
+	hi = &helperInline{fn: fn}
+	for op := 0; op <= opOther; op++ {
+		op := op
+		reach, feas := feasibleUnder(fn, func(v ssa.Value) (bool, bool) {
+			if k, eq, ok := typeTest(v); ok {
+				return (k == op) == eq, true
+			}
+			return extra(v)
+		})
+		hi.feas[op] = feas
+		for b := range reach {
+			may[b] |= 1 << uint(op)
+		}
+		// must: no feasible path from the entry to a return avoids b
+		for b := range reach {
+			avoid := false
+			seen := map[*ssa.BasicBlock]bool{}
+			var dfs func(x *ssa.BasicBlock)
+			dfs = func(x *ssa.BasicBlock) {
+				if avoid || seen[x] || x == b {
+					return
+				}
+				seen[x] = true
+				if len(x.Instrs) > 0 {
+					if _, isRet := x.Instrs[len(x.Instrs)-1].(*ssa.Return); isRet {
+						avoid = true
+						return
+					}
+				}
+				for _, s := range x.Succs {
+					if feas[cfgEdge{x, s}] {
+						dfs(s)
+					}
+				}
+			}
+			dfs(fn.Blocks[0])
+			if !avoid {
+				must[b] |= 1 << uint(op)
+			}
+		}
+	}
+	return may, must, hi
+}
+
 // All effects of a kind executed under op.
 func (a *ArmLoop) May(op int, kind string) []Effect {
 	var out []Effect
@@ -400,7 +566,10 @@ func (a *ArmLoop) May(op int, kind string) []Effect {
 			continue
 		}
 		for _, e := range es {
-			if e.Kind == kind {
+			if e.Kind == kind && (!e.Inlined || e.MayOps.has(op)) {
+				if os.Getenv("COLVET_DEBUG_ARMS") != "" {
+					fmt.Fprintf(os.Stderr, "MAY %s op=%d kind=%s inlined=%v mayops=%b inner=%v\n", fnName(a.Fn), op, kind, e.Inlined, e.MayOps, e.Inner)
+				}
 				out = append(out, e)
 			}
 		}
@@ -413,11 +582,29 @@ func (a *ArmLoop) May(op int, kind string) []Effect {
 // head or out of the loop — passes an effect of one of the kinds.
 func (a *ArmLoop) Must(op int, kinds ...string) bool {
 	has := func(b *ssa.BasicBlock) bool {
+		groups := map[*helperInline]map[*ssa.BasicBlock]bool{}
 		for _, e := range a.Effects[b] {
 			for _, k := range kinds {
-				if e.Kind == k {
+				if e.Kind != k {
+					continue
+				}
+				if !e.Inlined || e.MustOps.has(op) {
 					return true
 				}
+				// inside a helper, on some of its paths only: together with the other effects of
+				// these kinds in the same inlining they may still cover every path (set on one
+				// branch, clear on the other)
+				if e.H != nil && e.hBlock != nil && e.MayOps.has(op) {
+					if groups[e.H] == nil {
+						groups[e.H] = map[*ssa.BasicBlock]bool{}
+					}
+					groups[e.H][e.hBlock] = true
+				}
+			}
+		}
+		for h, blocks := range groups {
+			if h.mustPassOneOf(op, blocks) {
+				return true
 			}
 		}
 		return false
@@ -472,7 +659,9 @@ func (a *ArmLoop) EffectKindsUnder(op int) []string {
 	for b, es := range a.Effects {
 		if a.Ops[b].has(op) {
 			for _, e := range es {
-				set[e.Kind] = true
+				if !e.Inlined || e.MayOps.has(op) {
+					set[e.Kind] = true
+				}
 			}
 		}
 	}
